@@ -25,6 +25,8 @@ from vlib import log
 
 SPEC = vlib.SPEC
 DRIVER = "epoch_driver"
+RELW = "ReleasedWhileLockedHoldsBack"
+RELW_TEXT = "ReleasedAccessorNeverHoldsBack violated [class: accessor released while locked]"
 
 
 def record(progs, seeds, strategy, out, jobs=None, extra=None):
@@ -85,10 +87,10 @@ def run(pid, tier, seed, replay=None):
     tdir = os.path.join(vlib.BUILD, "traces")
 
     # model checking with the committed order table starts right away (re-done below if the code's table differs)
-    mcs = [("sc_quick", "Epoch_sc_q.cfg"), ("wm_quick", "Epoch_wm_q.cfg")]
+    mcs = [("sc_quick", "Epoch_sc_q.cfg"), ("wm_quick", "Epoch_wm_q.cfg"), ("relw_quick", "Epoch_relw_q.cfg")]
     if tier == "thorough":
         # the "big" ones (2 readers / 2 accessors + 1 writer, 2 objects: 1.5 M / 2.6 M states) may run out of time on a busy machine
-        mcs += [("sc", "Epoch_sc.cfg"), ("wm", "Epoch_wm.cfg"), ("big_wm", "Epoch_big_wm.cfg"), ("big_sc", "Epoch_big_sc.cfg")]
+        mcs += [("relw_wm", "Epoch_relw_wm_q.cfg"), ("sc", "Epoch_sc.cfg"), ("wm", "Epoch_wm.cfg"), ("big_wm", "Epoch_big_wm.cfg"), ("big_sc", "Epoch_big_sc.cfg")]
     mc_timeout = 1700 if tier == "thorough" else 300
     tag0 = json.dumps(dict(re.findall(r"(\w+) \|-> \"(\w+)\"", open(mo_committed).read())), sort_keys=True)
     mc_pool = ThreadPoolExecutor(4)
@@ -106,6 +108,10 @@ def run(pid, tier, seed, replay=None):
         nseeds = 6 if tier == "quick" else 60
         nrand = 14 if tier == "quick" else 120
         execs, status = record(ec.FIXED, (seed * 1000 + 1, seed * 1000 + 1 + nseeds), "mix", os.path.join(tdir, pid + "_fixed"), jobs=2)
+        e0, s0 = record(ec.RELW, (seed * 1000 + 1, seed * 1000 + 1 + nseeds), "mix", os.path.join(tdir, pid + "_relw"), jobs=2)
+        execs += e0
+        for k, v in s0.items():
+            status[k] = status.get(k, 0) + v
         rprogs = [ec.gen_program(rng) for _ in range(nrand)]
         e2, s2 = record(rprogs, (seed * 1000 + 1, seed * 1000 + (4 if tier == "quick" else 9)), "mix", os.path.join(tdir, pid + "_rand"), jobs=2)
         execs += e2
@@ -122,37 +128,44 @@ def run(pid, tier, seed, replay=None):
         log("NOTE: executions ended with %s" % bad_status)
 
     results = {}
-    layers = (
-        ("L1", os.path.join(SPEC, "Epoch_Mon.tla"), os.path.join(SPEC, "mc", "Epoch_Mon.cfg"), ec.monitor_lines),
-        ("L2", os.path.join(SPEC, "Epoch_Trace.tla"), os.path.join(SPEC, "mc", "Epoch_Trace.cfg"), ec.normalise),
-    )
-    with ThreadPoolExecutor(2) as pool:
-        futs = {}
-        for name, tla, cfg, conv in layers:
-            futs[name] = pool.submit(ec.check_traces, tla, cfg, [conv(ex) for ex in execs], pid + "_" + name, 4)
-            time.sleep(0.2)   # vlib.tlc derives its scratch directory from pid + milliseconds
-        checked = {name: f.result() for name, f in futs.items()}
-    for name, tla, cfg, conv in layers:
-        acc, issues, st = checked[name]
-        results[name] = (acc, issues, st)
+    drifting = []
+    mon = os.path.join(SPEC, "Epoch_Mon.tla")
+    mon_cfg = os.path.join(SPEC, "mc", "Epoch_Mon.cfg")
+    monr_cfg = os.path.join(SPEC, "mc", "Epoch_MonRelw.cfg")
+    trc = os.path.join(SPEC, "Epoch_Trace.tla")
+    trc_cfg = os.path.join(SPEC, "mc", "Epoch_Trace.cfg")
+    relw_seen = [False]
+
+    def judge(batch, name, tla, cfg, conv, res, tag):
+        acc, issues, st = res
+        prev = results.get(name, (0, [], {"pairs": []}))
+        results[name] = (prev[0] + acc, prev[1] + issues, {"pairs": sorted(set(prev[2]["pairs"]) | set(st["pairs"]))})
         V.cov["transitions"] += st["states"]
-        V.extra["trace_" + name] = {"accepted": acc, "issues": len(issues), "tlc_states": st["states"], "wall_s": round(st["wall"], 1), "unchecked": st["unchecked"]}
+        e = V.extra.setdefault("trace_" + name, {"accepted": 0, "issues": 0, "tlc_states": 0, "wall_s": 0.0, "unchecked": 0})
+        e["accepted"] += acc
+        e["issues"] += len(issues)
+        e["tlc_states"] += st["states"]
+        e["wall_s"] = round(e["wall_s"] + st["wall"], 1)
+        e["unchecked"] += st["unchecked"]
         for iss in issues:
-            ex = execs[iss.exec_index]
+            ex = batch[iss.exec_index]
             key = exec_key(ex)
             if iss.kind == "rejected":
                 if name == "L2":
                     V.drift += 1
+                    drifting.append(key)
                     log("SPEC-DRIFT component=epoch exec=%s seed=%s line=%d %s" % (json.dumps(key["params"]), key["seed"], iss.line, iss.detail))
                     continue
                 raise vlib.Broken("L1 monitor rejected a trace (monitors must accept every well-formed trace): %s" % iss.detail)
             clause = iss.kind.split(":", 1)[1]
             what = clause
-            if name == "L1":
+            if name in ("L1", "L1relw"):
                 m = re.findall(r'bad = "(\w+)"', iss.detail)
                 what = m[-1] if m and m[-1] else clause
                 if what == "Protocol":
                     raise vlib.Broken("driver protocol error (unlock without lock) in %s" % json.dumps(key))
+                if name == "L1relw" and (what != RELW or relw_seen[0]):
+                    continue     # every other clause is judged on all executions by the L1 pass
             else:
                 m = re.findall(r'bad \|-> "(\w+)"', iss.detail)
                 if clause == "TNoPrematureReclaim" and m and m[-1]:
@@ -163,8 +176,49 @@ def run(pid, tier, seed, replay=None):
                 _, iss2, _ = ec.check_traces(tla, cfg, lines2, pid + "_re") if lines2 else (0, [], {})
                 if not iss2:
                     raise vlib.Broken("violation %s did not reproduce on re-execution of %s" % (what, json.dumps(key)))
-            rp = vlib.save_replay(pid, "%s_%s_%d.json" % (name, what, iss.exec_index), {"exec": key, "clause": what, "layer": name, "line": iss.line, "trace": ex[:400]})
-            V.violation("%s violated on an execution of the real code (%s layer) prog=%s seed=%s" % (what, name, key["params"].get("prog"), key["seed"]), rp)
+            rp = vlib.save_replay(pid, "%s_%s_%d%s.json" % (name, what, iss.exec_index, tag), {"exec": key, "clause": what, "layer": name, "line": iss.line, "trace": ex[:400]})
+            if what == RELW:
+                relw_seen[0] = True
+                V.violation("%s on an execution of the real code (L1 layer): an Accessor released while locked keeps its slot published; prog=%s seed=%s" % (RELW_TEXT, key["params"].get("prog"), key["seed"]), rp)
+            else:
+                V.violation("%s violated on an execution of the real code (%s layer) prog=%s seed=%s strategy=%s" % (what, name, key["params"].get("prog"), key["seed"], key["strategy"]), rp)
+
+    def validate(batch, with_l2, tag):
+        mlines = [ec.monitor_lines(ex) for ex in batch]
+        with ThreadPoolExecutor(3) as pool:
+            f1 = pool.submit(ec.check_traces, mon, mon_cfg, mlines, pid + "_L1" + tag, 4)
+            time.sleep(0.2)   # vlib.tlc derives its scratch directory from pid + milliseconds
+            fr = pool.submit(ec.check_traces, mon, monr_cfg, mlines, pid + "_L1r" + tag, 1)
+            time.sleep(0.2)
+            f2 = pool.submit(ec.check_traces, trc, trc_cfg, [ec.normalise(ex) for ex in batch], pid + "_L2" + tag, 4) if with_l2 else None
+            r1, rr, r2 = f1.result(), fr.result(), (f2.result() if f2 else None)
+        judge(batch, "L1", mon, mon_cfg, ec.monitor_lines, r1, tag)
+        judge(batch, "L1relw", mon, monr_cfg, ec.monitor_lines, rr, tag)
+        if r2:
+            judge(batch, "L2", trc, trc_cfg, ec.normalise, r2, tag)
+
+    validate(execs, True, "")
+
+    # ---- drift-guided intensification: where the code no longer follows the L2 specification the model's exhaustive
+    # exploration no longer speaks for it: the drifting and the stress programs are explored much harder (L1 only)
+    if drifting and not replay and not [v for v in V.violations if RELW_TEXT not in v[0]]:
+        progs = []
+        for key in drifting:
+            p = key["params"]
+            t = (p["prog"], int(p["ns"]), int(p["nh"]), int(p["pre"]))
+            if t not in progs:
+                progs.append(t)
+        progs = progs[:2] + [t for t in ec.STRESS if t not in progs[:2]]
+        base = seed * 1000 + 500
+        extra, sx = record(progs, (base, base + (100 if tier == "quick" else 1500)), "mix", os.path.join(tdir, pid + "_driftmix"), jobs=2)
+        e5, s5 = record(progs, (1, 2), "pb", os.path.join(tdir, pid + "_driftpb"), extra=["--pb-bound", "3", "--max-execs", "500" if tier == "quick" else "8000"])
+        extra += e5
+        V.extra["drift_guided_executions"] = len(extra)
+        V.extra["drift_guided_programs"] = [t[0] for t in progs]
+        log("NOTE: L2 conformance drifted: %d further executions of %d programs judged by the L1 monitor" % (len(extra), len(progs)))
+        validate(extra, False, "_dg")
+        execs += extra
+
     V.cov["traces_validated_against_impl"] = results["L1"][0] + results["L2"][0]
     for ex in execs[:2]:
         V.sample({"program": ex[0]["params"], "strategy": ex[0]["strategy"], "events": len(ex), "first_events": ex[1:8]})
@@ -200,17 +254,21 @@ def run(pid, tier, seed, replay=None):
                 m = re.findall(r'bad \|-> "(\w+)"', r.error_trace)
                 if clause == "NoPrematureReclaim" and m and m[-1]:
                     clause = m[-1]
+                if clause == "ReleasedWhileLockedNeverHoldsBack" and not V.drift:
+                    rp = vlib.save_replay(pid, "tlc_%s_%s.txt" % (name, clause), "order table (from the running code): %s\n\n%s" % (json.dumps(table), r.error_trace))
+                    V.violation("%s in the L2 model %s (release_slot_store=%s as executed by the code: unregister_accessor does not reset the slot)" % (RELW_TEXT, cfg, table.get("release_slot_store")), rp)
+                    continue
                 if V.drift:
                     log("NOTE: TLC counterexample for %s ignored for the verdict because the L2 spec drifted from the code" % clause)
                     continue
                 rp = vlib.save_replay(pid, "tlc_%s_%s.txt" % (name, clause), "order table (from the running code): %s\nchanged vs committed: %s\n\n%s" % (json.dumps(table), json.dumps(changed), r.error_trace))
-                V.violation("%s violated in the L2 model %s with the memory orders the code executes (changed: %s)" % (clause, cfg, json.dumps(changed)), rp)
+                V.violation("%s violated in the L2 model %s with the memory orders the code executes (release_slot_store=%s; changed: %s)" % (clause, cfg, table.get("release_slot_store"), json.dumps(changed)), rp)
         V.cov["exhaustive"] = True
     V.assumptions += [
         "WeakMem.tla is a subset of ISO C++ (promise-free release/acquire + fences, stores at the end of mo); seq_cst accesses have hardware strength (the x86 tick is one seq_cst fetch_add)",
         "stores to a slot word continue the release sequence of the unlock before them (C++11-17 same-thread rule; cumulativity of real hardware for a recycled slot): the purely formal C++20 race 'scan acquires the relaxed store of the NEXT region in that slot' is not reported",
         "IdAllocator (C14) and ConcurrentVector growth (C04) are abstracted: LIFO free stack + counter; the slot block exists before the threads start",
-        "releasing an accessor that is still locked, and mixing accessor / thread-local style on one Epoch, are outside the contract and not generated",
+        "mixing accessor / thread-local style on one Epoch is outside the contract and not generated; releasing an accessor that is still locked ends its region (the statement: a released Accessor never holds the mark back)",
         "executions are serialised by vsched; weak-memory outcomes are decided on the model with the order table read from the running code",
     ]
     return V.finish()
